@@ -12,7 +12,7 @@
 (* drift  (specification/implementation mismatch) and printed at the end.  *)
 (* Many traces are concatenated in one file; an "Init" line resets.        *)
 (***************************************************************************)
-EXTENDS Core, Store, CodecCases, ProxyCases, Json, IOUtils
+EXTENDS Core, Store, CodecCases, ProxyCases, NodeGate, Json, IOUtils
 
 TraceFile == IOEnv.TRACE_FILE
 Trace == ndJsonDeserialize(TraceFile)
@@ -990,14 +990,19 @@ TraceStateRpc ==
     /\ LET x == Line.x
            o == Line.o
            d == x.state \o ":" \o x.class
+           isReq == x.class \in Requests
            V == ChecksD("C17", "Inv_C17_Frozen", d, o.frozen /\ ~o.panicked)
                 \cup ChecksD("C17", "Inv_C17_MutatingRefused", d, x.mutating => (o.refused \/ o.blocked))
+                \* NodeGate.tla: a request the gate does not let through is refused
+                \cup ChecksD("C17", "Inv_C17_GateAsSpecified", d,
+                              (isReq /\ ~Gate(x.state, x.class)) => (o.refused \/ o.blocked))
                 \cup ChecksD("C17", "Inv_C17_SuspendedServesSync", d,
                               (x.state = "Suspended" /\ o.is_sync) => o.served_sync_ok)
                 \cup ChecksD("C08", "Inv_C08_NoPanic", d, ~o.panicked)
-       IN  viol' = AddCapped(viol, V)
+       IN  /\ viol' = AddCapped(viol, V)
+           /\ drift' = AddCapped(drift, Checks("-", "Conf_Node_Mutating", isReq => (x.mutating = Mutating(x.class))))
     /\ stats' = [ stats EXCEPT !.lines = @ + 1, !.inserts = @ + 1 ]
-    /\ UNCHANGED << pst, D, nodes, dlv, sto, psto, rrv, meta, cev, ctx, base, last, pools, lostSet, evals, fames, ref, sub, drift >>
+    /\ UNCHANGED << pst, D, nodes, dlv, sto, psto, rrv, meta, cev, ctx, base, last, pools, lostSet, evals, fames, ref, sub >>
 
 \* node.checkSuspend at a heartbeat: suspended iff the undetermined events
 \* created since the node started exceed limit x validators, or the node has
@@ -1006,10 +1011,9 @@ TraceHeartbeat ==
     /\ Line.a = "Heartbeat"
     /\ LET x == Line.x
            o == Line.o
-           tooMany == x.undet - x.initial > x.limit * x.nvals
-           evicted == x.has_lcr /\ x.removedRound > 0 /\ x.removedRound > x.acceptedRound /\ x.lcr >= x.removedRound
+           must == MustSuspend(x.undet, x.initial, x.limit, x.nvals, x.has_lcr, x.lcr, x.removedRound, x.acceptedRound)
            V == Checks("C17", "Inv_C17_AutoSuspend",
-                       o.before = "Babbling" => ((o.after = "Suspended") <=> (tooMany \/ evicted)))
+                       o.before = "Babbling" => ((o.after = "Suspended") <=> must))
        IN  viol' = AddCapped(viol, V)
     /\ stats' = [ stats EXCEPT !.lines = @ + 1, !.fameDecided = @ + (IF Line.o.after = "Suspended" /\ Line.o.before = "Babbling" THEN 1 ELSE 0) ]
     /\ UNCHANGED << pst, D, nodes, dlv, sto, psto, rrv, meta, cev, ctx, base, last, pools, lostSet, evals, fames, ref, sub, drift >>
